@@ -22,8 +22,9 @@ class OpBox(object):
     """sandbox for operation-level scenarios of trash-put: a root volume with HOME and a second volume m1"""
 
     def __init__(self, seed=0, uid=1000, tdir_exists=False, pre_info=(), pre_pay=(), base=b'n', kinds=('file',),
-                 src_vol='R', fallback=False, second_cand_exists=False):
+                 src_vol='R', fallback=False, second_cand_exists=False, short_writes=False):
         self.rnd = random.Random('opbox|%s' % seed)
+        self.short_writes = short_writes      # every write stores only half of what it is given (and says so)
         self.base_dir = tempfile.mkdtemp(prefix='vo-', dir=SHM)
         self.root = os.path.join(self.base_dir, 'w')
         self.uid = uid
@@ -142,9 +143,23 @@ class OpBox(object):
         return e
 
     def shim(self, **kw):
-        c = {'root': self.root, 'mounts': self.mounts, 'uid': self.uid, 'seed': 1, 'trace': True}
+        c = {'root': self.root, 'mounts': self.mounts, 'uid': self.uid, 'seed': 1, 'trace': True, 'short_writes': self.short_writes}
         c.update(kw)
         return c
+
+    def being_written(self, content, t):
+        """is content a proper beginning of the .trashinfo of one of the sources in trash directory t?"""
+        for q, sp in self.sources.items():
+            want = sp
+            tb = self.tbase(t)
+            if tb is not None and sp.startswith(os.fsencode(tb) + b'/'):
+                want = sp[len(os.fsencode(tb)) + 1:]
+            head = b'[Trash Info]\nPath=' + world.escape(want) + b'\nDeletionDate='
+            if head.startswith(content):
+                return True
+            if content.startswith(head) and re.fullmatch(rb'[0-9T:-]{0,19}', content[len(head):]):
+                return True
+        return False
 
     def put_argv(self, p):
         return (['--home-fallback'] if self.fallback else []) + ['--', self.sources[p]]
@@ -233,6 +248,10 @@ class OpBox(object):
                             if pth == want:
                                 who = q
                         ok = who is not None and dat is not None and content.startswith(b'[Trash Info]\n') and content.endswith(b'\n')
+                        if not ok and self.being_written(content, t):
+                            # a beginning of a well-formed info (a write that stored only a part so far): not complete yet
+                            st['info'][t][a] = {'st': 'empty', 'owner': owner}
+                            continue
                         st['info'][t][a] = {'st': 'full' if ok else 'garbage', 'owner': who or owner}
             if os.path.isdir(fdir):
                 for n in os.listdir(fdir):
